@@ -20,6 +20,13 @@ def run(tier):
             suspects.append(r)
 
     scanlib.run_scan(res, vw, jobs, pvs, {"C01"}, on_record=on_rec)
+    # the dynamic-rules checker with a real rule set (the repository's rule source as a user rule file)
+    import json
+    with open(os.path.join(ws, "go.mod"), "a") as f:
+        f.write("\nrequire github.com/quasilyte/go-ruleguard/dsl v0.3.22\n")
+    pvf = os.path.join(ws, "pv_dyn.json")
+    json.dump({"dyn": {"ruleguard": {"rules": os.path.join(vlib.REPO, "checkers/rules/rules.go")}}}, open(pvf, "w"))
+    scanlib.run_scan(res, vw, [(ws, jobs[-1][1], "G-dyn")], ["dyn"], {"C01"}, extra_args=["-pvfile", pvf, "-only", "ruleguard"], cwd=ws, on_record=on_rec)
     # bounded progress: a Check that took > 20 s is re-run alone with a 10x budget
     for s in suspects:
         pv, path, checker = s["case"].split(" ", 2)
